@@ -18,6 +18,9 @@ def _merge(a: dict, b: dict, path=None):
     """
     if path is None:
         path = []
+    if isinstance(a, tomlkit.items.InlineTable) and hasattr(b, "unwrap"):
+        # tomlkit refuses to put a [table] into an inline table: merge the plain values instead
+        b = b.unwrap()
     for key in b:
         if key in a:
             if isinstance(a[key], dict) and isinstance(b[key], dict):
